@@ -179,7 +179,21 @@ def _never_none(col, rule="C05.R2"):
             for a in S.instances(r.value):
                 if a == out:
                     # the parameter itself: only on paths where it is known not to be None
-                    if cfg.path_avoiding(cfg.ENTRY, r.nid, rebinds + known):
+                    rv = r.node.value
+                    if isinstance(rv, ast.Name) and rv.id != out[2]:
+                        # returned through a copy `acc = out`: the copy reaches the return only where it was not replaced (`if acc is None:
+                        # acc = set()`) -- those paths must have seen that it is not None
+                        ds = [d for d in sx.cx.rd.reaching(r.nid, rv.id) if d.kind == "assign"]
+                        bad = False
+                        for d in ds:
+                            if sx.sym.of(d.value, d.nid) != out:
+                                continue
+                            others = [o.nid for nid_ in cfg.nodes for o in sx.cx.rd.defs.get(nid_, []) if o.name == rv.id and o.kind in ("assign", "aug") and o.nid != d.nid]
+                            if cfg.path_avoiding(d.nid, r.nid, others + known):
+                                bad = True
+                        if bad:
+                            ok, why = False, f"returns the parameter `{out[2]}` unrepaired (None when called without accumulator)"
+                    elif cfg.path_avoiding(cfg.ENTRY, r.nid, rebinds + known):
                         ok, why = False, f"returns the parameter `{out[2]}` unrepaired (None when called without accumulator)"
                 elif _is_fresh(a):
                     continue
